@@ -114,6 +114,7 @@ func (a *adversary) pickValue(t *rapid.T, p pools) int64 {
 	for _, h := range a.hon { // inputs of honest processes even if not yet proposed
 		cands = append(cands, 101+h)
 	}
+	cands = append(cands, 0) // the empty value must never be accepted anywhere
 	return cands[rapid.IntRange(0, len(cands)-1).Draw(t, "value")]
 }
 
